@@ -275,3 +275,8 @@ package keeper
 //@   ensures @authority_only err == nil ==> req.Authority == k.Keeper.authority
 //@   ensures @rejected_changes_nothing err != nil ==> wrk_store == old(wrk_store)
 //@   ensures @valid_and_stored err == nil ==> wrk_store == wrkParamsPut(old(wrk_store), req.Params) && validDenom(req.Params.Denom) && req.Params.FeeRegister >= 1 && req.Params.FeeRecord >= 1 && req.Params.FeePurchaseStorage >= 1 && req.Params.DefaultStorageLimit >= 1 && req.Params.DefaultStorageLimit <= req.Params.MaxStorageLimit
+
+// logging has no effect on module state
+//@ func Keeper.Logger(ctx) (l)
+//@   trusted the logger handle is not modelled; the method only derives a logger from the context
+//@   pure
